@@ -190,7 +190,7 @@ func genSeqMapCase(r rng, mode string) *seqMapCase {
 	default: // layout
 		fl := pick(r, mapFlavors)
 		cs.exotic = fl == "Map" || fl == "MapOf[string,any]"
-		hints := []int{noHint, -1, 0, 1, 96, 97, 1000, 100000}
+		hints := []int{noHint, -1, 0, 1, 72, 73, 96, 97, 120, 121, 144, 145, 288, 1000, 4607, 4608, 4609, 100000} // incl. values around power-of-two table lengths
 		for i := 0; i < 3; i++ {
 			cs.specs = append(cs.specs, mapSpec{Flavor: fl, Hint: pick(r, hints)})
 		}
